@@ -10,6 +10,7 @@ import ZorgVerif.Model.Query
 import ZorgVerif.Model.Sql
 import ZorgVerif.Model.Exec
 import ZorgVerif.Model.Saved
+import ZorgVerif.Model.Zo
 /-! Line protocol: one JSON request per line on stdin, one JSON answer per line on stdout. -/
 open Lean ZorgVerif
 
@@ -317,6 +318,30 @@ def handleSaved (op : String) (j : Json) : Except String Json := do
     | none => pure (Json.mkObj [("none", true)])
   | _ => throw s!"unknown op {op}"
 
+def zoNoteJson (n : Zo.Note) : Json :=
+  Json.mkObj [("line", n.line), ("kind", QJ.kind n.kind), ("priority", match n.priority with | some p => jstr p | none => Json.null),
+    ("body", jstr n.body), ("zid", match n.zid with | some z => jstr z | none => Json.null),
+    ("cdate", QJ.date n.cdate), ("mdate", QJ.date n.mdate),
+    ("areas", Json.arr (n.areas.map jstr).toArray), ("contexts", Json.arr (n.contexts.map jstr).toArray),
+    ("people", Json.arr (n.people.map jstr).toArray), ("projects", Json.arr (n.projects.map jstr).toArray),
+    ("links", Json.arr (n.links.map jstr).toArray),
+    ("props", Json.arr (n.props.map (fun (k, v) => Json.arr #[jstr k, jstr v])).toArray),
+    ("section", Json.arr (n.sectionPath.map jstr).toArray), ("block", n.block)]
+
+def handleZo (op : String) (j : Json) : Except String Json := do
+  match op with
+  | "zo.compile" =>
+    let txt ← strOf j "text"
+    let today ← dateOf j "today"
+    let toks := Lex.lex Gen.FileLexer.rules txt.toList
+    let toks := toks.filter (fun t => t.name != "<err>")    -- lexer errors are dropped silently (no listener on the lexer)
+    match Zo.compileToks today Gen.fileDefaultPriority.toList toks with
+    | .ok r => pure (Json.mkObj [("ok", Json.arr (r.notes.map zoNoteJson).toArray)])
+    | .error (.syntax w) => pure (Json.mkObj [("err", "syntax"), ("what", w)])
+    | .error (.crash w) => pure (Json.mkObj [("err", "crash"), ("what", w)])
+    | .error .fuel => pure (Json.mkObj [("err", "fuel")])
+  | _ => throw s!"unknown op {op}"
+
 def handle (line : String) : Json :=
   match Json.parse line with
   | .error e => Json.mkObj [("driver_error", s!"parse: {e}")]
@@ -334,6 +359,7 @@ def handle (line : String) : Json :=
         else if op.startsWith "filter." then handleFilter op j
         else if op.startsWith "exec." then handleExec op j
         else if op.startsWith "saved." then handleSaved op j
+        else if op.startsWith "zo." then handleZo op j
         else .error s!"unknown op {op}"
       match r with
       | .ok v => v
